@@ -21,7 +21,6 @@ var zzLockOps = []string{"Define", "DefineGlobal", "Set", "Get", "Delete", "Dele
 	"NewEnv", "NewModule", "Addr", "String", "DefineType", "DefineGlobalType", "Type", "GetTypeSymbols",
 	"Copy", "DeepCopy", "GetEnvFromPath", "GetEnvFromPath2", "GetEnvFromPath3", "DefineValue", "SetValue", "GetValue", "DefineReflectType", "SetExternalLookup"}
 
-
 func zzLockOp(e *Env, op int, name string, v int64) {
 	switch zzLockOps[op] {
 	case "Define":
